@@ -13,14 +13,14 @@ use std::task::{Context, Poll, Waker};
 use tokio::io::{AsyncRead, AsyncWrite, ReadBuf};
 
 #[derive(Default)]
-struct Wire {
-    inbox: VecDeque<u8>,
-    eof: bool,
-    waker: Option<Waker>,
+pub struct Wire {
+    pub inbox: VecDeque<u8>,
+    pub eof: bool,
+    pub waker: Option<Waker>,
     /// observable events: ("read", n) | ("write", bytes) | ("end")
-    events: Vec<(String, Vec<u8>, usize)>,
+    pub events: Vec<(String, Vec<u8>, usize)>,
 }
-struct CtlSock(Arc<Mutex<Wire>>);
+pub struct CtlSock(pub Arc<Mutex<Wire>>);
 
 impl AsyncRead for CtlSock {
     fn poll_read(self: Pin<&mut Self>, cx: &mut Context<'_>, buf: &mut ReadBuf<'_>) -> Poll<std::io::Result<()>> {
@@ -83,7 +83,7 @@ fn query_bytes(q: &Value) -> Vec<u8> {
 
 /// The PDUs the server wrote, grouped into response entries.
 #[derive(Debug, Clone, PartialEq)]
-enum Entry {
+pub enum Entry {
     Notify,
     Full(u8),
     Diff(u8),
@@ -92,7 +92,7 @@ enum Entry {
     Malformed(String),
 }
 
-fn parse_out(bytes: &[u8]) -> Vec<Entry> {
+pub fn parse_out(bytes: &[u8]) -> Vec<Entry> {
     let mut res = Vec::new();
     let mut i = 0;
     let mut open: Option<(u8, usize)> = None; // (version, payload PDUs seen)
